@@ -357,6 +357,32 @@ func checkC20(w *World, c *Check, tier string) {
 			kinds = append(kinds, nilSeed{"nil *" + ln, "nil-list", avIface(pt, avNilPtr(pt))})
 		}
 	}
+	// totality on non-nil values: IsNil must terminate with the constant false on the pointer form and on the value form
+	// of every vocabulary struct (a form missing from a conversion switch sends IsNil -> OnObject -> ToObject ->
+	// reflectItemToType -> IsNil into unbounded recursion)
+	for _, s := range w.itemStructs() {
+		pt := types.NewPointer(s)
+		forms := map[string]AV{
+			"*" + s.Obj().Name(): avIface(pt, avNonNilPtr(pt)),
+			s.Obj().Name():       avIface(s, AV{K: kTop}),
+		}
+		for label, av := range forms {
+			r := w.c20Eval(isNil, []AV{av})
+			b, isConst := r.result.isConstBool()
+			switch {
+			case r.aborted != "":
+				c.bad("C20.total", "IsNil:"+label, w.FuncPos(isNil), "undecided: "+r.aborted)
+			case !r.returned:
+				c.bad("C20.total", "IsNil:"+label, w.FuncPos(isNil), fmt.Sprintf("IsNil on a non-nil %s never returns on the abstract run: the conversion helpers recurse into each other without a base case for this form (stack overflow)", label))
+			case len(r.faults) > 0:
+				c.bad("C20.total", "IsNil:"+label, w.FuncPos(isNil), fmt.Sprintf("IsNil on a non-nil %s faults: %v", label, faultList(w, r.faults)))
+			case isConst && b:
+				c.bad("C20.total", "IsNil:"+label, w.FuncPos(isNil), fmt.Sprintf("IsNil on a non-nil %s is constantly true", label))
+			default:
+				c.ok("C20.total", "IsNil:"+label, w.FuncPos(isNil), "returns "+r.result.String())
+			}
+		}
+	}
 	objPtr := types.NewPointer(w.Named("Object"))
 	nonNil := avIface(objPtr, avNonNilPtr(objPtr))
 	for _, k := range kinds {
